@@ -94,9 +94,11 @@ def run_family(pid, tier, profile, n, length, mc_cfg, text_rule, extra_assumptio
     other = {}
     for r in rejs:
         ev = r.event.get("ev")
-        failing = diagnose(r, os.path.join(work, "diag"))
+        failing = None if ev == "panic" else diagnose(r, os.path.join(work, "diag"))
         props = set()
-        if failing:
+        if ev == "panic":
+            props, failing = {"C12"}, {"panic"}
+        elif failing:
             # the first failing aspect in causal order is the cause, the rest are consequences
             for a in ("res", "proj", "iso", "unmod", "feed", "mirror", "meta", "read"):
                 if a in failing:
@@ -137,6 +139,33 @@ def run_family(pid, tier, profile, n, length, mc_cfg, text_rule, extra_assumptio
         time.time() - t0, len(outcome.violations))
     vlib.cleanup(pid)
     return rc
+
+
+def panic_sig(e):
+    return "cache panic %s %s" % (e.get("op"), re.sub(r":\d+$", "", e.get("site", "")).replace("/repo/", ""))
+
+
+def panic_phase(outcome, work, drv, n, length, profile="mixed", shards=16):
+    """C12 on histories: random cache scenarios validated by CacheTrace.tla; only calls in which the real code
+    panicked are reported here (other rejected calls belong to C02/C03/C14/C15 and are reported by those checks)."""
+    tr = os.path.join(work, "hist")
+    d = vlib.drv_stats(vlib.run_driver(drv, ["cache", "random", "-profile", profile, "-n", str(n), "-len", str(length),
+                                             "-out", tr, "-shards", str(shards)]))
+    files = sorted(os.path.join(tr, f) for f in os.listdir(tr) if f.startswith("cache-") and f.endswith(".ndjson"))
+    stats, rejs = vlib.validate_traces("CacheTrace.tla", "CacheTrace.cfg", files, os.path.join(work, "hval"), is_boundary, max_rejections=6)
+    scen = load_scenarios(tr)
+    other = 0
+    for r in rejs:
+        if r.event.get("ev") != "panic":
+            other += 1
+            continue
+        sc = scen.get(r.scenario[0].get("sc"), {})
+        outcome.report(panic_sig(r.event), dict(family="cache", scenario=dict(sc, ops=sc.get("ops", [])[:len(r.scenario) - 1]),
+                                                rejected_event=r.event, reason=r.reason, spec="CacheTrace.tla"))
+    if other:
+        vlib.log("NOTE: %d rejected call(s) without a panic break C02/C03/C14/C15, not C12 (run those checks)" % other)
+    vlib.log("[validate] %d history events, %d rejected, %d of them panics" % (stats["events"], len(rejs), len(rejs) - other))
+    return dict(scenarios=d.get("scenarios", 0), events=stats["events"], files=files)
 
 
 def replay_family(pid, path):
